@@ -82,11 +82,12 @@ class C14(Prop):
             "EINTR, close/peer close/peer FIN with pending data) + seeded random histories of write/vwrite/sendres/"
             "flush/cycle/wready/close/peerfin/peerclose with message lengths on both sides of the buffer size, "
             "LF densities 0..1 and send scripts of partial/W/I/P/E results, half of them started at a random ring "
-            "offset; a case is non-trivial when its trace has >= 2 lines; distinct = distinct canonical "
+            "offset, for three kinds of user (PORT_ASCII, PORT_TELNET with its connect negotiation, console user); a case is non-trivial when its trace has >= 2 lines; distinct = distinct canonical "
             "implementation trace")
-    not_covered = ["console user branch of flush_message (fd-less write to stdout, all_users[0]) is not exercised",
-                   "snoop forwarding (receive_snoop) from add_message/add_vmessage",
-                   "telnet IAC doubling is not done by the code and not claimed; PORT_TELNET negotiation output at connect",
+    not_covered = ["console reconnect (console_mode option) and the console worker thread; the console user's output path "
+                   "itself (write(2) branch of flush_message, flush at the end of add_message) is modelled and run",
+                   "snoop forwarding (receive_snoop) from add_message/add_vmessage (an LPC call after the loop; does not touch the ring)",
+                   "telnet IAC doubling is not done by the code and not claimed",
                    "builds with FLUSH_OUTPUT_IMMEDIATELY",
                    "Windows IOCP runtime (only the Linux epoll runtime is run)"]
 
